@@ -250,6 +250,8 @@ def run(run_, pkg, tier):
             run_.violation(key, "C18-B2-validity-table", what, where=t[3])
     run_.instances.append(dict(key="C18-B2/table", rule="C18-B2-validity-table", ok=not by_key, detail="%d configurations" % total))
     run_.extra["evaluations_table"] = total
+    run_.extra["evaluations"] = total
+    run_.extra["distinct_nontrivial"] = accepted
     run_.extra["consistent_configurations_accepted"] = accepted
     run_.extra["exhaustive"] = tier == "thorough"
     run_.floor("consistent configurations accepted", accepted, 8)
